@@ -8,17 +8,28 @@ SPEC = {
         'files': [('internal/handshake', 'harness/handshake/zz_verif_c06_test.go')],
         'model_module': 'Model.C06_Handshake', 'imports': ['From Wesh Require Import Gen.Handshake.'],
         'shard': 200, 'timeout': 1200,
+    }, {
+        'name': 'contact-request-manager', 'pkg': '.', 'test': 'TestVerifC06CRM',
+        'files': [('.', 'harness/root/zz_verif_meta_common_test.go'),
+                  ('.', 'harness/root/zz_verif_c06crm_test.go')],
+        'model_module': 'Model.C06_Handshake', 'imports': ['From Wesh Require Import Gen.Handshake.'],
+        'shard': 400, 'timeout': 900,
     }],
     'rule': 'per round (fresh account keys): honest run, wrong target, and an attack catalogue run against the real responder and the '
             'real requester over in-memory pipes: each of the 12 low-order / non-canonical X25519 encodings as ephemeral key on either '
             'side (with A\'s proof over the zero secret replayed when obtainable), cross-session replay and reflection of every recorded '
             'frame with and without the attacker being a legitimate party of the recorded session, bit flips / truncation / oversize, '
             'RSA and secp256k1 identity keys, foreign signatures, negative or missing acknowledge; non-trivial = every attack; '
-            'distinct = case term per round',
+            'distinct = case term per round; contact-request-manager stream: the real handleIncomingRequest (responder handshake, then the peer\'s contact card) '
+            'of a hand-assembled contactRequestsManager over the real account-group MetadataStore, driven through an in-memory pipe by a scripted peer '
+            'with real keys, 6 (80) rounds x 10 scenarios: honest request with / without rendezvous seed, card naming another account / the '
+            'receiving account, short seed, key that is no key, no card, garbage, handshake towards another account, card without handshake; '
+            'observed: which key (if any) ends up recorded as a received request, with which metadata and seed',
     'trusted_base': [
         'Coq 8.16.1 kernel; vm_compute for evaluating the model on cases',
         'no axioms',
         'translator gen/handshake.go (validation of the peer ephemeral key present in receivePeerEphemeralPubKey)',
+        'harness/root/zz_verif_c06crm_test.go (hand-assembled contactRequestsManager; network.Stream stub over net.Pipe)',
         'harness/handshake/zz_verif_c06_test.go (scripted attacker with real keys; each attack is mapped by hand to the symbolic '
         'hello point and frame the model evaluates)',
         'modelled, not verified: X25519 (unordered pair of scalars; zero on low-order points), nacl box, SHA-256 key mixing, Ed25519, '
